@@ -5,5 +5,6 @@ CONSTANTS
   MaxRot = 2
   Dedup = TRUE
   Recheck = FALSE
-INVARIANTS NoDup NoLoss NoInvent NeverInNeither TypeOK
+  ReaderFallback = TRUE
+INVARIANTS NoDup NoLoss NoInvent NoDamage NeverInNeither TypeOK
 CHECK_DEADLOCK FALSE
